@@ -371,7 +371,7 @@ func (w *World) buildReply(ep *Endpoint, pr *ProbeRec, hp *HopPlan, r *Reply) (b
 			var opts []byte
 			if lis != nil && lis.L.Timestamps {
 				opts = append(opts, 1, 1)
-				opts = append(opts, codec.TimestampOption(777000+uint32(len(ep.sackSeqs)), tsValOf(l4))...)
+				opts = append(opts, codec.TimestampOption(777000+uint32(len(ep.sackSeqs))+ep.tsTick, tsValOf(l4))...)
 			}
 			if base == "sack" {
 				blocks := sackBlocks(ep.sackSeqs, l4.Seq, len(opts) > 0)
@@ -744,6 +744,25 @@ func buildNoise(n *Noise, count int) []byte {
 		orig := codec.BuildIPv4(s, d, codec.ProtoUDP, 1, codec.V4Opts{ID: uint16(41821 + rng.IntN(30))}, u)
 		b, _ := codec.ICMPError(r, codec.V4TimeExceeded, 0, orig, codec.ICMPErrOpts{})
 		return b
+	case "badicmp":
+		// an ICMP datagram no parser can make sense of (it passes every capture filter: they all let
+		// ICMP through): the ICMP header is cut short, the IP header claims options it does not have,
+		// or an error quotes half an IP header
+		s, d := a4(), a4()
+		which := rng.IntN(3)
+		if len(args) > 0 {
+			which = atoi(args[0]) // a flood of one kind: every frame of it is undecodable
+		}
+		switch which {
+		case 0:
+			return codec.BuildIPv4(s, d, codec.ProtoICMP, 50, codec.V4Opts{}, []byte{11, 0, 0}[:1+rng.IntN(3)])
+		case 1:
+			b := codec.BuildIPv4(s, d, codec.ProtoICMP, 50, codec.V4Opts{}, []byte{11, 0, 0xf4, 0xff, 0, 0, 0, 0})
+			b[0] = 0x4f // IHL 60 in a 28-byte datagram
+			return b
+		}
+		m := codec.ICMP(s, d, codec.V4TimeExceeded, 0, [4]byte{}, []byte{0x45, 0, 0, 40, 0, 1, 0, 0, 1, 17})
+		return codec.BuildIPv4(s, d, codec.ProtoICMP, 50, codec.V4Opts{}, m)
 	case "synack":
 		// a SYN-ACK from the given address:port to some other local socket (args: addr, port): passes a
 		// SYN-ACK capture filter without belonging to anybody's handshake
